@@ -342,8 +342,38 @@ def check_loader(run):
                                 "does not behave like its code)",
                                 payload={"kind": "load", "name": name},
                                 theorem="C18_register_available")
+                # registered means: visible in the registry every part of
+                # the library reads (fitting, initial parameters, ...)
+                why_ = None
+                if reg:
+                    try:
+                        from nanite.model import logic as _logic
+                        if md.model_key not in model.models_available:
+                            why_ = "is not in nanite.model.models_available"
+                        elif _logic.models_available is not \
+                                model.models_available:
+                            why_ = ("went into another registry object than "
+                                    "the one nanite.model exposes")
+                        else:
+                            model.get_init_parms(md.model_key)
+                            model.get_model_by_name(md.model_name)
+                    except BaseException as e:
+                        why_ = f"cannot be used: {type(e).__name__}: {e}"
+                if why_:
+                    run.failing(SITE_R, key + "|visible", f"model "
+                                f"{md.model_key} registered from a file "
+                                f"{why_} (history: earlier loads in this "
+                                "process failed)",
+                                payload={"kind": "load", "name": name},
+                                theorem="C18_register_available")
                 if md.model_key in model.models_available:
                     model.deregister_model(md)
+                    if md.model_key in model.models_available:
+                        run.failing(SITE_R, key + "|dereg", "deregister did "
+                                    "not remove the key from "
+                                    "nanite.model.models_available",
+                                    payload={"kind": "load", "name": name},
+                                    theorem="C18_deregister_exact")
             elif set(model.models_available) != before_reg:
                 run.failing(SITE_R, key, "failed load changed the registry",
                             payload={"kind": "load", "name": name},
